@@ -252,3 +252,46 @@ Theorem C15_requests_build_structure : forall dedup inputs rs outs b hs ows,
     and_gates c <= N.of_nat (reqs_cost rs).
 Proof. exact requests_build_structure. Qed.
 Print Assumptions C15_requests_build_structure.
+
+(* ------------------------------------------------------------------ the last clause of C15, at the
+   level of PROGRAMS: a third instance of the parametricity theorem of the lowering
+   (Compile/ParamLower.lower_param) with an abstract "constness" operation set [kops] (a wire is a
+   known constant or unknown; an operation crashes exactly when the real builder might emit an AND
+   gate).  If that run of main succeeds — an executable definition of "data movement", evaluated by
+   the extracted checker on every tied program — then the model of compile.rs (dedup on or off)
+   emits a circuit without a single AND gate. *)
+From GV Require Import Lang.Ast Compile.Lower Compile.FreeOps Compile.FreeLower.
+
+Theorem C15_data_movement_zero_and : forall fuel dedup P kouts c,
+  klower_main fuel P = Ok kouts ->
+  lower_program_with fuel dedup P = Ok (LCircuit c) ->
+  and_gates c = 0.
+Proof. exact data_movement_circuit_zero_and. Qed.
+Print Assumptions C15_data_movement_zero_and.
+
+Theorem C15_data_movement_compiles : forall fuel dedup P kouts,
+  klower_main fuel P = Ok kouts ->
+  exists s outs c,
+    lower_main_with fuel dedup P = Ok (PreOk s outs) /\
+    StructSpec.band_count (cb s) = 0 /\
+    lower_program_with fuel dedup P = Ok (LCircuit c) /\ and_gates c = 0.
+Proof.
+  intros fuel dedup P kouts H.
+  destruct (data_movement_zero_and fuel dedup P kouts H) as (s & outs & c & H1 & H2 & _ & H3 & H4).
+  exists s, outs, c. auto.
+Qed.
+Print Assumptions C15_data_movement_compiles.
+
+(* non-vacuity: tuple destructuring + struct re-pack + constant-index read and write + an
+   equal-width cast + loops with constant trip counts is in the class; `x & y` and a dynamic
+   index are not; destructuring an enum whose tag is an INPUT is not either, and really costs
+   AND gates (16 for a two-variant enum with a u8 payload): selecting a payload by a tag that is
+   data is a multiplexer, not a move *)
+Theorem C15_data_movement_examples :
+  klower_main 50 FreeExamples.move_prog = Ok (repeat None 48) /\
+  klower_main 50 FreeExamples.and_prog = Crash /\
+  klower_main 50 FreeExamples.idx_prog = Crash.
+Proof.
+  split; [exact FreeExamples.move_prog_is_data_movement|].
+  split; [exact FreeExamples.and_prog_rejected|exact FreeExamples.idx_prog_rejected].
+Qed.
